@@ -338,6 +338,9 @@ pub struct Pool<F> {
     pub small_order: Vec<Vec<Pt<F>>>,
     /// primitive cube root of unity in Fq (as an element of F)
     pub beta: F,
+    /// points of the full curve group whose coordinates have special structure (G2: x in Fq, x purely
+    /// imaginary, y in Fq, y purely imaginary; built with square / cube roots in the model). Empty for G1.
+    pub special: Vec<(String, Pt<F>)>,
 }
 
 fn build_pool<G: Grp>(seed: u64) -> Pool<G::F>
@@ -375,7 +378,7 @@ where
         }
         small_order.push(v);
     }
-    Pool { sub, small_mult, full, small_order, beta: beta_in::<G::F>() }
+    Pool { sub, small_mult, full, small_order, beta: beta_in::<G::F>(), special: G::special_points() }
 }
 
 /// primitive cube root of unity of Fq, embedded: 2^((q-1)/3) (2 is not a cube mod q)
@@ -403,6 +406,43 @@ static POOL2: OnceLock<Pool<Fq2>> = OnceLock::new();
 
 pub trait HasPool: crate::adapt::Ops {
     fn pool() -> &'static Pool<Self::F>;
+}
+
+/// G2 points with structured coordinates; (label, point). For each structure both signs of y.
+pub fn g2_special_points() -> Vec<(String, Pt<Fq2>)> {
+    let c = refmodel::curve::e2();
+    let mut out = vec![];
+    let mut w = Words(0x5bec1a1);
+    // x real / x imaginary: lift x
+    for kind in ["x-in-Fq", "x-imaginary"] {
+        let mut found = 0;
+        while found < 2 {
+            let v = Fq::from_words(&mut || w.next());
+            let x = if kind == "x-in-Fq" { Fq2::new(v, Fq::zero()) } else { Fq2::new(Fq::zero(), v) };
+            if let Some(Pt::Aff(x, y)) = c.lift_x(&x) {
+                out.push((kind.to_string(), Pt::Aff(x.clone(), y.clone())));
+                out.push((kind.to_string(), Pt::Aff(x, y.neg())));
+                found += 1;
+            }
+        }
+    }
+    // y real / y imaginary: x^3 = y^2 - b needs a cube root
+    for kind in ["y-in-Fq", "y-imaginary"] {
+        let mut found = 0;
+        while found < 2 {
+            let v = Fq::from_words(&mut || w.next());
+            let y = if kind == "y-in-Fq" { Fq2::new(v, Fq::zero()) } else { Fq2::new(Fq::zero(), v) };
+            let rhs = y.sqr().sub(&c.b);
+            if let Some(x) = rhs.cbrt() {
+                let p = Pt::Aff(x.clone(), y.clone());
+                assert!(c.on_curve(&p));
+                out.push((kind.to_string(), p));
+                out.push((kind.to_string(), Pt::Aff(x, y.neg())));
+                found += 1;
+            }
+        }
+    }
+    out
 }
 impl HasPool for G1m {
     fn pool() -> &'static Pool<Fq> {
@@ -432,6 +472,9 @@ pub enum PointR {
     Neg(Box<PointR>),
     /// (beta^k x, y): same y, different x
     Beta(Box<PointR>, u8),
+    /// G2: full-curve point with a structured coordinate (x or y in Fq or purely imaginary), times a small
+    /// multiplier is NOT applied (the structure would be lost). G1: falls back to a full-curve point.
+    Special(u8),
 }
 
 impl PointR {
@@ -452,6 +495,13 @@ impl PointR {
                 let v = &pool.small_order[*p as usize % pool.small_order.len()];
                 c.add(&v[*i as usize % v.len()], &pool.sub[*s as usize % POOL_SUB].1)
             }
+            PointR::Special(i) => {
+                if pool.special.is_empty() {
+                    pool.full[*i as usize % POOL_FULL].clone()
+                } else {
+                    pool.special[*i as usize % pool.special.len()].1.clone()
+                }
+            }
             PointR::Neg(inner) => c.neg(&inner.build::<G>()),
             PointR::Beta(inner, k) => match inner.build::<G>() {
                 Pt::Inf => Pt::Inf,
@@ -469,7 +519,7 @@ impl PointR {
     pub fn in_subgroup(&self) -> bool {
         match self {
             PointR::Identity | PointR::Gen | PointR::SmallMult(_) | PointR::Sub(_) => true,
-            PointR::Full(_) | PointR::SmallOrder(_, _) | PointR::Mixed(_, _, _) => false,
+            PointR::Full(_) | PointR::SmallOrder(_, _) | PointR::Mixed(_, _, _) | PointR::Special(_) => false,
             PointR::Neg(i) => i.in_subgroup(),
             // x -> beta x is the GLV endomorphism on E(Fq) and on E'(Fq2): it preserves the subgroup
             PointR::Beta(i, _) => i.in_subgroup(),
@@ -485,6 +535,7 @@ impl PointR {
             PointR::Mixed(_, _, _) => "pt-order-l*r",
             PointR::Neg(_) => "pt-negated",
             PointR::Beta(_, _) => "pt-same-y",
+            PointR::Special(_) => "pt-structured-coordinate",
         }
     }
 }
@@ -499,6 +550,7 @@ fn point_leaf(any_curve_point: bool) -> BoxedStrategy<PointR> {
             4 => (0u8..POOL_FULL as u8).prop_map(PointR::Full),
             4 => (0u8..5, 0u8..POOL_SMALL_PER_PRIME as u8).prop_map(|(p, i)| PointR::SmallOrder(p, i)),
             2 => (0u8..5, 0u8..POOL_SMALL_PER_PRIME as u8, 0u8..POOL_SUB as u8).prop_map(|(p, i, s)| PointR::Mixed(p, i, s)),
+            2 => (0u8..16).prop_map(PointR::Special),
         ]
         .boxed()
     } else {
